@@ -74,4 +74,6 @@ package ice
 //@   props C02 C06
 //@   modifies nothing
 //@   loop 1 invariant index-in-range: rangeindex + 1 <= len(set)
+//@   site call addrPortEqual#1 assert compares-the-candidates-address-with-the-source-in-canonical-form: arg1 == addr
+//@   site call addrPort#1 assert of-the-candidate-under-inspection: recv == c
 //@   ensures only-a-known-remote-of-that-network-type: result != nil ==> exists i int :: 0 <= i && i < len(a.remoteCandidates[networkType]) && a.remoteCandidates[networkType][i] == result
